@@ -160,6 +160,23 @@ pub fn relay_case_strategy(sz: MsgSize, allow_requery: bool) -> impl Strategy<Va
             reply.header.tc = false;
             reply.header.qr = true;
             reply.header.opcode = 0;
+            // the upstream has to be able to send it: at most 65535 octets as *it* encodes it
+            // (the question is replaced by the client's, up to 255 + 4 octets longer)
+            let comp = match compress {
+                0 => dns::Compress::Off,
+                1 => dns::Compress::Owners,
+                _ => dns::Compress::All,
+            };
+            while dns::encode(&reply, comp).len() + 300 > 65535 {
+                let opt = reply.additional.iter().position(|r| r.rtype == 41).map(|i| reply.additional.remove(i));
+                for sec in [&mut reply.answer, &mut reply.authority, &mut reply.additional] {
+                    let keep = sec.len() / 2;
+                    sec.truncate(keep);
+                }
+                if let Some(o) = opt {
+                    reply.additional.push(o);
+                }
+            }
             RelayCase {
                 qname,
                 qtype,
@@ -396,7 +413,24 @@ impl<'a> C03Relay<'a> {
                 out.excluded.push("refused-rate-limited-on-udp");
                 return;
             }
-            out.fail("C04:no-reply", format!("no reply over {}", if c.tcp { "TCP" } else { "UDP" }));
+            out.fail(
+                "C04:no-reply",
+                format!(
+                    "no reply over {}; the upstream was asked {} time(s); its reply is {} octets uncompressed, {} compressed; server log tail: {}",
+                    if c.tcp { "TCP" } else { "UDP" },
+                    ex.upstream_count,
+                    dns::encode(&ex.upstream_sent, dns::Compress::Off).len(),
+                    up_full,
+                    {
+                        let t = self.rig.server.lock().unwrap().stderr_tail();
+                        let mut n = t.len().saturating_sub(600);
+                        while !t.is_char_boundary(n) {
+                            n += 1;
+                        }
+                        t[n..].replace('\n', " | ")
+                    }
+                ),
+            );
             return;
         }
         let g = &ex.got[0];
